@@ -1,0 +1,33 @@
+//go:build verif
+
+package postgresql
+
+import (
+	"github.com/cossacklabs/acra/decryptor/base"
+	"github.com/cossacklabs/acra/encryptor/postgresql"
+)
+
+// Verification hook (add-only, compiled with -tags verif only).
+
+// VerifS65QueryEncryptors returns the query encryptors reachable from the proxy's query observers (the ones
+// proxyFactory.New built with postgresql.NewQueryEncryptor), in observer order.
+func VerifS65QueryEncryptors(p base.Proxy) []*postgresql.QueryDataEncryptor {
+	var out []*postgresql.QueryDataEncryptor
+	var walk func(m postgresql.QueryObserverManager)
+	walk = func(m postgresql.QueryObserverManager) {
+		am, ok := m.(*postgresql.ArrayQueryObservableManager)
+		if !ok {
+			return
+		}
+		for _, o := range am.VerifS55Observers() {
+			switch v := o.(type) {
+			case *postgresql.QueryDataEncryptor:
+				out = append(out, v)
+			case postgresql.QueryObserverManager:
+				walk(v)
+			}
+		}
+	}
+	walk(p.(*PgProxy).queryObserverManager)
+	return out
+}
